@@ -122,9 +122,21 @@ func (e *Engine) verifyFunctionOnce(fn *ssa.Function, con *Contract, pathLimit i
 	x.env0 = env
 	if con != nil {
 		nl := len(e.loops(fn).headers)
+		// an invariant for a loop the function no longer has (the loop was removed or moved into another function):
+		// the obligation that discharged on the unchanged tree can no longer be established — a failed obligation,
+		// like an invariant that names a variable the loop no longer has
+		cnt := map[int]int{}
 		for _, cl := range con.Clauses {
-			if cl.Kind == "invariant" && cl.Loop > nl {
-				sfail("contract names loop %d but %s has %d loop(s)", cl.Loop, fn.Name(), nl)
+			if cl.Kind != "invariant" {
+				continue
+			}
+			cnt[cl.Loop]++
+			if cl.Loop > nl {
+				name := cl.Name
+				if name == "" {
+					name = fmt.Sprintf("%d", cnt[cl.Loop])
+				}
+				x.emit(st, "invariant-entry", fmt.Sprintf("loop%d.%s", cl.Loop, name), cl.Text+fmt.Sprintf("   [cannot be established: %s has %d loop(s), the contract names loop %d]", fn.Name(), nl, cl.Loop), cl.Props, TFalse)
 			}
 		}
 		for _, cl := range con.Clauses {
